@@ -52,6 +52,7 @@ class Universe(object):
         self._idx = {}      # id(obj) -> index
         self.aliases = []   # python lists the harness holds on to
         self.files = []     # durable store: dicts {path, backend, doc}
+        self.merges = []    # (dest index, source index) of Section merges that succeeded
         self.corrupt = None  # set by the structural guard
 
     # -- registry ---------------------------------------------------------
